@@ -40,6 +40,13 @@ WEIGHTED = ("ad", "ac", "az", "az1", "an", "at", "zop")
 # plus, on every root: vertex numbers -1 and n (just outside [0, n-1]) and masks of length n-1 and n+1.
 B_VARIANTS = ["az", "az1", "zop", "an", "at"]
 
+# scale letters (kind S roots): the weighted payload of a graph re-expressed at other legal magnitudes
+#   x1e-6 / x1e-9 / x1e6 : every weight (and point) multiplied by the factor       mixed : every other weight x 1e-9
+#   offset : a large common offset (offset / spread ~ 1e6)       near : nearly equal weights 1 + k * 1e-9
+SCALE_LETTERS = ["x1e-6", "x1e-9", "x1e6", "mixed", "offset", "near"]
+SCALE_FACTOR = {"x1e-6": 1e-6, "x1e-9": 1e-9, "x1e6": 1e6}
+LARGE_SIZE = 300  # one large-size letter (the recursive cycle test of menpo reaches python's recursion limit near 1000 vertices)
+
 # option letters: every documented keyword option of a public call under the property is crossed with every other
 SP_ALGORITHMS = ["auto", "FW", "D", "BF", "J"]  # scipy's names (the names in menpo's docstring are rejected by scipy)
 SP_PRODUCT = [(a, u, k) for a in SP_ALGORITHMS for u in (False, True) for k in (False, True)]  # algorithm x unweighted x skip_checks
@@ -148,6 +155,7 @@ class C14(Check):
         # the contiguous chunks handed to the worker processes each get a few of them
         out.extend(self._boundary_roots())
         out.extend(self._option_roots())
+        out.extend(self._scale_roots())
         fam = self._family_roots() + self._form_roots()
         stride = max(1, len(out) // max(1, len(fam)))
         mixed = []
@@ -190,6 +198,8 @@ class C14(Check):
             for kind in ("U", "D"):
                 out.append(("F", "grid", code, 0, kind, "P", "pre", "full"))
                 out.append(("F", "grid", code, 0, kind, "P", "ac", "full"))
+        for name, kind, cls in (("chain", "U", "A"), ("chain", "D", "P"), ("star", "U", "P"), ("binary", "T", "A"), ("binary", "T", "P")):
+            out.append(("F", name, LARGE_SIZE, LARGE_SIZE // 2 if name == "star" else 0, kind, cls, "ac", "form"))
         for oi in range(len(GRID_OPTIONS)):  # init_2d_grid: spacing x adjacency_matrix given x skip_checks
             for kind in ("U", "D"):
                 out.append(("F", "grid", 304, oi, kind, "P", "gopt", "lite"))
@@ -226,6 +236,18 @@ class C14(Check):
                     for cls in ("A", "P"):
                         for v in ("an", "at") + (("az", "az1") if ZERO_WEIGHT_CSGRAPH_OPS else ()):
                             out.append(("B", "T", n, code, r, cls, v, "full"))
+        return out
+
+    def _scale_roots(self):
+        out = []
+        graphs = [("U", 4, bits, 0) for bits in range(2 ** 6)] + [("D", 3, bits, 0) for bits in range(2 ** 6)]
+        graphs += [("T", 4, code, r) for code in range(16) for r in range(4)]
+        for sub, n, code, r in graphs:
+            if sub != "T" and code == 0:
+                continue  # no edge, no weight
+            for letter in SCALE_LETTERS:
+                out.append(("S", sub, n, code, r, "A", letter, "full"))
+                out.append(("S", sub, n, code, r, "P", letter, "lite"))
         return out
 
     def _option_roots(self):
@@ -298,6 +320,34 @@ class C14(Check):
                 troot = None
                 directed = sub == "D"
             salt = ("B", sub, n, code, troot)
+        elif kind == "S":
+            _, sub, n, code, troot, cls, letter, mode = root
+            if sub == "T":
+                edges = orient_from_root(n, prufer_tree(n, code), troot)
+                directed = True
+            else:
+                pairs = und_pairs(n) if sub == "U" else dir_pairs(n)
+                edges = [p for i, p in enumerate(pairs) if (code >> i) & 1]
+                troot = None
+                directed = sub == "D"
+            salt = ("S", sub, n, code, troot)
+            base = self._weights(edges, salt)
+            m_edges = len(edges)
+            if letter in SCALE_FACTOR:
+                weights = {e: w * SCALE_FACTOR[letter] for e, w in base.items()}
+            elif letter == "mixed":
+                weights = {e: (w * 1e-9 if i % 2 == 0 else w) for i, (e, w) in enumerate(sorted(base.items()))}
+            elif letter == "offset":
+                weights = {e: 1e6 * (3 * m_edges + 5) + w for e, w in base.items()}
+            else:  # near
+                weights = {e: 1.0 + w * 1e-9 for e, w in base.items()}
+            pts = None
+            if cls == "P":
+                pts = self._points(n, salt)
+                pts = pts * SCALE_FACTOR[letter] if letter in SCALE_FACTOR else pts + 1e6 if letter == "offset" else pts[0] + pts * 1e-7 if letter == "near" else pts
+            st = self._construct(root, directed, troot, cls, "ac" if cls == "A" else "ad", n, edges, weights, pts, mode)
+            st["scale"] = (letter, base)
+            return st
         elif kind == "O":
             _, sub, n, code, troot, cls, variant, oi, mode = root
             if sub == "T":
@@ -681,6 +731,31 @@ class C14(Check):
 
     # ------------------------------------------------------------------------------------------ alphabet
     @staticmethod
+    def _tol(m, unweighted=False):
+        """absolute tolerance for sums of weights of this graph: 0 (exact) for integer-valued weights and hop counts,
+        else 1e-12 x the sum of the magnitudes (>= 1000 x the rounding of such sums, relative to the data)."""
+        if unweighted:
+            return 0.0
+        vals = [abs(float(w)) for w in m.w.values()]
+        if all(v == int(v) and v < 2.0 ** 40 for v in vals):
+            return 0.0
+        return 1e-12 * sum(vals)
+
+    @staticmethod
+    def _eq(a, b, tol):
+        return a == b or abs(a - b) <= tol
+
+    @staticmethod
+    def _meq(A, B, tol):
+        A, B = np.asarray(A, dtype=float), np.asarray(B, dtype=float)
+        if tol == 0:
+            return np.array_equal(A, B)
+        if A.shape != B.shape or not np.array_equal(np.isinf(A), np.isinf(B)):
+            return False
+        fin = ~np.isinf(A)
+        return bool(np.all(np.abs(A[fin] - B[fin]) <= tol))
+
+    @staticmethod
     def _wsp_ok(m):
         """weighted shortest paths are defined: no negative weight, or a digraph without any cycle (an undirected
         negative edge, or a negative weight on a directed cycle, may make the distance unbounded)."""
@@ -854,6 +929,12 @@ class C14(Check):
         if k == "static":
             f = self._static(st["g"], st["m"], st["pts"], st["cls"], "queries")
             self.note("static:%s" % ("ok" if not f else "fail"))
+            if st.get("scale") and st["ctor"] is not None:
+                f = f + self._scale_equivariance(st)
+                if not f:
+                    self.note("scale-ok:%s:%s" % (st["scale"][0], st["root"][1]))
+            if st["root"][0] == "F" and st["m"].n == LARGE_SIZE and not f:
+                self.note("large-size:%s:ok" % st["cls"])
             if st["root"][0] == "O" and not f:
                 c, k2 = CTOR_OPTIONS[st["root"][7]]
                 self.note("ctor-opt:%s:%s:%s:copy=%s:skip_checks=%s" % (st["root"][1], st["root"][5], st["root"][6], c, k2))
@@ -1001,7 +1082,7 @@ class C14(Check):
             return self._static_points(g, m, pts, F, bad)
         if self._wsp_ok(m):
             D = np.asarray(g.find_all_shortest_paths()[0], dtype=float)
-            if not np.array_equal(D, m.dist(False)):
+            if not self._meq(D, m.dist(False), self._tol(m)):
                 bad("all-shortest-distances", "distance matrix %r expected %r" % (D.tolist(), m.dist(False).tolist()))
         Du = np.asarray(g.find_all_shortest_paths(unweighted=True)[0], dtype=float)
         if not np.array_equal(Du, m.dist(True)):
@@ -1023,7 +1104,7 @@ class C14(Check):
                 dist, pred = g.find_all_shortest_paths(algorithm=alg, unweighted=unw)
                 ref = m.dist(unw)
                 self.note("allsp-letter:%s:%s" % (alg, "unweighted" if unw else "weighted"))
-                if not np.array_equal(np.asarray(dist, dtype=float), ref):
+                if not self._meq(dist, ref, self._tol(m, unw)):
                     bad("all-shortest-distances", "find_all_shortest_paths(algorithm=%r, unweighted=%r) distances %r expected %r (weights %r)" % (alg, unw, np.asarray(dist).tolist(), ref.tolist(), sorted(m.w.items())))
                     continue
                 if n > 12:
@@ -1040,7 +1121,7 @@ class C14(Check):
                             guard += 1
                         route.reverse()
                         prob = m.route_problem(route, s_, e_)
-                        if prob or m.route_length(route, unw) != ref[s_, e_]:
+                        if prob or not self._eq(m.route_length(route, unw), ref[s_, e_], self._tol(m, unw)):
                             bad("all-shortest-predecessors", "find_all_shortest_paths(%r, unweighted=%r): predecessors give route %r from %d to %d (%s), distance %r (weights %r)" % (alg, unw, route, s_, e_, prob or "not shortest", ref[s_, e_], sorted(m.w.items())))
         for v in range(n):
             if m.directed:
@@ -1184,22 +1265,25 @@ class C14(Check):
         if prob:
             return [Failure("find_shortest_path", "invalid-route", ctx + ": " + prob)]
         length = m.route_length(route, unw)
-        if length != D[s, e]:
+        tol = self._tol(m, unw)
+        if not self._eq(length, D[s, e], tol):
             return [Failure("find_shortest_path", "route-not-shortest", ctx + ": the route weighs %r, Floyd-Warshall distance is %r" % (length, D[s, e]))]
         hops = min(len(route) - 1, 4)
-        if unw and self._wsp_ok(m) and m.route_length(route, False) > m.dist(False)[s, e]:
+        if st.get("scale") and not unw:
+            self.note("scale-sp:%s" % st["scale"][0])
+        if unw and self._wsp_ok(m) and m.route_length(route, False) > m.dist(False)[s, e] + self._tol(m):
             self.note("sp:fewest-edges-route-is-not-the-lightest:%s" % alg)
         if st.get("zeros") == "built":
             self.note("sp:stored-zero-letter")
         if not unw and any(w < 0 for w in m.w.values()):
             self.note("sp:negative-weights-%s" % ("negative-distance" if D[s, e] < 0 else "other"))
-        if cost == D[s, e]:
+        if self._eq(cost, D[s, e], tol):
             self.note("sp:cost-ok-%dedges" % hops)
             return []
         # D11 footprint: the returned cost is the sum over the route (end excluded: the loop of the real code
         # adds dist(start, v) for every predecessor v it walks through) of the distances from the start
         defect = float(sum(D[s, v] for v in route[:-1]))
-        if cost == defect:
+        if self._eq(cost, defect, tol):
             self.note("sp:cost-D11-%dedges" % hops)
             return self._known(st, "D11", "find_shortest_path", "cost", ctx + ": cost should be %r (sum of cumulative distances returned)" % (D[s, e],))
         return [Failure("find_shortest_path", "cost", ctx + ": cost should be %r" % (D[s, e],))]
@@ -1235,11 +1319,13 @@ class C14(Check):
         total = float(sum(m.w[e] for e in E))
         ref_total, cnt = m.kruskal()
         assert cnt == n - 1
-        if total != ref_total:
+        if not self._eq(total, ref_total, self._tol(m)):
             F.append(Failure(where, "weight", "%s: tree edges %r weigh %r, Kruskal %r" % (ctx, E, total, ref_total)))
         F += self._static(t, tm, st["pts"], want, where)
         F += self._tree(t, tm, r, where)
         self.note("mst:%s" % ("ok" if not F else "fail"))
+        if not F and st.get("scale"):
+            self.note("scale-mst:%s" % st["scale"][0])
         if not F and st.get("zeros") == "built":
             self.note("mst:stored-zero-letter")
         if not F and any(w < 0 for w in m.w.values()):
@@ -1273,6 +1359,27 @@ class C14(Check):
             return self._refused_tree(st, "Tree-constructor", ctx, exc)
         self.note("astree:accepted")
         return self._static(t, m, st["pts"], klass.__name__, "Tree-constructor") + self._tree(t, m, r, "Tree-constructor")
+
+    # ---- scale letters
+    def _scale_equivariance(self, st):
+        """distances of the graph with weights s * w are s * (distances for w): the base distances are computed
+        exactly from the integer base weights, the comparison is relative to the magnitude of the scaled data."""
+        letter, base = st["scale"]
+        if letter not in SCALE_FACTOR:
+            return []
+        g, m = st["g"], st["m"]
+        f = SCALE_FACTOR[letter]
+        arcs = {}
+        for e, w in base.items():
+            arcs[e] = w
+            if not m.directed:
+                arcs[(e[1], e[0])] = w
+        ref = RefGraph(m.n, m.directed, arcs).dist(False) * f
+        got = np.asarray(g.find_all_shortest_paths()[0], dtype=float)
+        self.note("scale-equivariance:%s" % letter)
+        if not self._meq(got, ref, 1e-12 * f * sum(abs(w) for w in arcs.values())):
+            return [Failure("queries", "scale-equivariance", "%s weights %r: distances %r are not %g x the distances %r of the base weights" % (st["cls"], sorted(m.w.items()), got.tolist(), f, (ref / f).tolist()))]
+        return []
 
     # ---- boundary letters
     def _op_zero(self, st, a, b, verify):
@@ -1380,6 +1487,8 @@ class C14(Check):
         F = []
         if verify:
             self.note("mask:%s" % ("all-true" if mask.all() else "proper"))
+            if st.get("scale") and m2.w:
+                self.note("scale-mask:%s" % st["scale"][0])
             F += self._static(h, m2, pts2, st["cls"], where)
             if r2 is not None and not F:
                 F += self._tree(h, m2, r2, where)
@@ -1427,6 +1536,10 @@ class C14(Check):
         ):
             if not notes.get(tag):
                 out.append("boundary outcome %s never produced" % tag)
+        want0 = ["scale-ok:%s:%s" % (l, k) for l in SCALE_LETTERS for k in ("U", "D", "T")]
+        want0 += ["scale-%s:%s" % (q, l) for q in ("sp", "mst", "mask") for l in SCALE_LETTERS] + ["scale-equivariance:%s" % l for l in SCALE_FACTOR]
+        want0 += ["large-size:%s:ok" % c for c in ("UndirectedGraph", "PointDirectedGraph", "PointUndirectedGraph", "Tree", "PointTree")]
+        out += ["scale letter outcome %s never produced" % w for w in want0 if not notes.get(w)]
         want = ["sp-letter:%s:%s:%s" % (a, "unweighted" if u else "weighted", "skip" if k else "checked") for (a, u, k) in SP_PRODUCT]
         want += ["sp:fewest-edges-route-is-not-the-lightest:%s" % a for a in SP_ALGORITHMS]
         want += ["allsp-letter:%s:%s" % (a, u) for a in SP_ALGORITHMS for u in ("weighted", "unweighted")]
@@ -1484,6 +1597,8 @@ class C14(Check):
                 "init_2d_grid": "spacing(3) x adjacency_matrix given(2) x skip_checks(2)",
                 "chain_graph": "graph_cls(6) x closed(2)",
             },
+            "scale_letters": SCALE_LETTERS,
+            "large_size": LARGE_SIZE,
             "boundary_variants": B_VARIANTS,
             "zero_weight_csgraph_ops": ZERO_WEIGHT_CSGRAPH_OPS,
             "zop_csgraph_ops": ZOP_CSGRAPH_OPS,
@@ -1501,6 +1616,8 @@ class C14(Check):
             "[interp] weighted shortest paths are judged only where they are defined (no negative weight, or an acyclic digraph); minimum_spanning_tree with a root outside [0, n-1] and PointTree.init_2d_grid on one-row / one-column grids are not judged",
             "option cross products (every documented keyword option given explicitly, the reference taking the same options): find_shortest_path algorithm x unweighted x skip_checks - the FULL product (20 calls per start/end pair) on every weighted letter of the small scope for the abstract classes in both tiers, all PAIRS of option values (10 calls: every algorithm with every unweighted value, skip_checks alternating) on the point-carrying classes (which inherit the method), unit-weight letters, families and the largest thorough scope (argument-form roots keep the default options: they vary one argument at a time); find_all_shortest_paths algorithm x unweighted (distances and predecessor routes), find_path method x skip_checks, find_all_paths path omitted/[]/None, every per-vertex query with skip_checks=True (graphs of at most 12 vertices), constructors copy x skip_checks (kind O roots: undirected n<=3 (thorough 4), directed n<=3, trees n<=4; edge array, dense and csr adjacency; abstract and point-carrying), init_2d_grid spacing x adjacency_matrix x skip_checks, chain_graph graph_cls x closed",
             "weighted algorithm letters are left out only where the textbook answer is undefined: algorithm 'D' (Dijkstra) with negative weights, and every weighted letter on graphs with a possible negative cycle; skip_checks=True is only combined with valid vertex numbers",
+            "scale letters (kind S roots: every undirected graph on 4 vertices, digraph on 3, rooted tree on 4; abstract from csr, point-carrying from dense adjacency): all weights x 1e-6 / x 1e-9 / x 1e6, every other weight x 1e-9, a common offset (offset / spread ~ 1e6), nearly equal weights 1 + k*1e-9; point coordinates scaled / offset / nearly coincident alike; the reference is computed in float64 from the scaled input itself; sums of non-integer weights are compared with the tolerance 1e-12 x sum|w| (relative to the data, no fixed epsilon), integer-valued weights and hop counts exactly; scale-equivariance clause: distances for s*w equal s x the exact distances for the integer base weights",
+            "one large-size letter: chains, a star and binary trees on %d vertices (structured pairs / roots / masks); menpo's recursive cycle test and find_all_paths raise RecursionError from about 1000 vertices on a chain (outside the property's sizes, reported, not a letter)" % LARGE_SIZE,
             "simple graphs only (no self loops); weights are distinct positive integers stored as floats, so all sums are exact",
             (
                 "quick: every mask/pair/root for undirected n<=4, directed n<=3, trees n<=4; undirected n=5 and directed n=4 get the static queries (and Tree(root) readings) only"
